@@ -84,11 +84,17 @@ def same_value(e1: str, e2: str) -> bool | None:
     ok = 0
     for k in range(12):
         env = Env(str(k))
-        try:
-            v1 = cexpr.evaluate(a1, env, fake_funcs(str(k)))
-            v2 = cexpr.evaluate(a2, env, fake_funcs(str(k)))
-        except (KeyError, ZeroDivisionError, OverflowError, ValueError):
+        vals = []
+        for a_ in (a1, a2):
+            try:
+                vals.append(cexpr.evaluate(a_, env, fake_funcs(str(k))))
+            except (KeyError, ZeroDivisionError, OverflowError, ValueError):
+                vals.append(None)
+        if vals[0] is None and vals[1] is None:
             continue
+        if vals[0] is None or vals[1] is None:
+            return False          # one side has a value here, the other divides by zero / leaves the domain: not the same law
+        v1, v2 = vals
         ok += 1
         if not (v1 == v2 or abs(v1 - v2) <= 1e-9 * max(abs(v1), abs(v2))):
             return False
@@ -144,6 +150,12 @@ def export_cases(ctx, rng, n, tid0):
             i += 1
             reacs.append(Reaction(["#CO", "#H"], ["#HCO"], -1.0, -1.0, 2500.0, 0.0, 0.0, RT.SURFACE_TWOBODY, i))
         reacs.append(Reaction(["H", "CO"], ["HCO"], 10.0, 300.0, 1.0e-15, 0.0, 0.0, RT.GAS_TWOBODY, i + 1))
+        if k % 3 == 2:
+            # charged grains: electron capture and cation recombination, the cations written BEFORE the grain (the exchange format writes the
+            # reactants of a reaction in name order, so H+ + GRAIN- comes back as GRAIN- + H+)
+            reacs.append(Reaction(["GRAIN0", "e-"], ["GRAIN-"], -1.0, -1.0, 1.0, 0.0, 0.0, RT.GRAIN_ECAPTURE, i + 2))
+            for j_, ion_ in enumerate(("H+", "He+", "C+", "HCO+")):
+                reacs.append(Reaction([ion_, "GRAIN-"], [ion_[:-1], "GRAIN0"], -1.0, -1.0, 1.0, 0.0, 0.0, RT.GRAIN_RECOMINE, i + 3 + j_))
         d = ctx.sub("exp") / str(k)
         d.mkdir()
         ev = {"act": "Export", "exported": True, "refused": False, "same": True, "diff": [], "eb": eb, "yields": yl, "ices": chosen}
